@@ -177,7 +177,11 @@ Scenario gen_scenario(Tape &t, Info *info) {
       sc.neg_after = sc.expected.size();
       if (sc.negative == 1) {
         // TCP header declaring a body far above COAP_DEFAULT_MAX_PDU_RX_SIZE
-        std::vector<uint8_t> h = {0xF0, 0x7f, 0xff, 0xff, 0xff, 0x03};
+        // (which one: last tape byte, so that earlier tapes keep theirs) 2^31, the largest value of the field, the values around the point where
+        // 65805 + extended length no longer fits 32 bits, and lengths not far above the maximum
+        static const uint32_t EXT[] = {0x7fffffffu, 0xffffffffu, 0xfffefef3u, 0xfffefef2u, 0xffff0000u, (uint32_t)COAP_DEFAULT_MAX_PDU_RX_SIZE + 70000u, 0x01000000u, 0x80000000u};
+        uint32_t ext = EXT[t.n >= 48 ? t.p[t.n - 1] % 8 : 0];
+        std::vector<uint8_t> h = {0xF0, (uint8_t)(ext >> 24), (uint8_t)(ext >> 16), (uint8_t)(ext >> 8), (uint8_t)ext, 0x03};
         for (int k = 0; k < 40; k++) h.push_back((uint8_t)k);
         sc.stream.insert(sc.stream.end(), h.begin(), h.end());
       } else if (sc.negative == 2) {
